@@ -10,6 +10,7 @@ import (
 	"time"
 
 	"go.universe.tf/metallb/internal/bgp"
+	"go.universe.tf/metallb/internal/bgp/community"
 	vr "go.universe.tf/metallb/internal/verifrt"
 )
 
@@ -448,6 +449,7 @@ func VerifFRRText(nsess, nadv0, order, kind int) {
 	vr.Assert(vhAll(err == nil, cfg != nil), "createConfig failed although repeated prefixes carry equal local preferences")
 	text, err := templateConfig(cfg)
 	vr.Assert(err == nil, "templateConfig failed")
+	vr.Observe("frr.conf", text)
 	vhCheckText(vhParseFRR(text), sess)
 	// determinism of the text
 	vr.MapOrder(order)
@@ -511,6 +513,7 @@ func VerifFRRTextParams(variant int) {
 	vr.Assert(vhAll(err == nil, cfg != nil), "createConfig failed")
 	text, err := templateConfig(cfg)
 	vr.Assert(err == nil, "templateConfig failed")
+	vr.Observe("frr.conf", text)
 	f := vhParseFRR(text)
 	vr.Assert(f.unknown == 0, "the generated text uses a construct outside the FRR subset the templates are known to produce")
 	for _, s := range sess {
@@ -605,4 +608,72 @@ func VerifFRRTextParams(variant int) {
 		}
 	}
 	vr.Reach("frr session parameters checked")
+}
+
+func init() {
+	verifHarnesses["VerifFRRTextSample"] = func(a []int) { VerifFRRTextSample(a[0]) }
+}
+
+// VerifFRRTextSample: translator validation for the template evaluator. Session sets with concrete names
+// (no abstract string order on the path) and symbolic numbers; the rendered text is handed to
+// vr.Observe, so the native replay of every sampled path compares it byte for byte with what the
+// real text/template produces. The FRR interpreter runs on it as well.
+func VerifFRRTextSample(k int) {
+	mk := func(prefix string, lp uint32, comms ...community.BGPCommunity) (*bgp.Advertisement, vhReq) {
+		_, n, _ := net.ParseCIDR(prefix)
+		r := vhReq{prefix: n.String(), v6: n.IP.To4() == nil, lp: lp}
+		for _, c := range comms {
+			switch c {
+			case vhC1:
+				r.c1 = true
+			case vhC2:
+				r.c2 = true
+			case vhLarge:
+				r.large = true
+			}
+		}
+		return &bgp.Advertisement{Prefix: n, LocalPref: lp, Communities: comms}, r
+	}
+	lp := vr.IteU32(vr.Bool(), 100, 200)
+	lp2 := vr.IteU32(vr.Bool(), 0, lp)
+	var sess []*vhSess
+	add := func(p bgp.SessionParameters, advs ...func() (*bgp.Advertisement, vhReq)) {
+		s := &vhSess{params: p}
+		for _, f := range advs {
+			a, r := f()
+			s.advs = append(s.advs, a)
+			s.reqs = append(s.reqs, r)
+		}
+		sess = append(sess, s)
+	}
+	base := func(addr string, asn uint32) bgp.SessionParameters {
+		return bgp.SessionParameters{PeerAddress: addr, PeerPort: 179, MyASN: 64512, PeerASN: asn, RouterID: net.ParseIP("10.255.0.1"), CurrentNode: "node-me"}
+	}
+	switch k {
+	case 0:
+		add(base("192.168.1.1", 64600),
+			func() (*bgp.Advertisement, vhReq) { return mk("10.0.0.0/24", lp, vhC1) },
+			func() (*bgp.Advertisement, vhReq) { return mk("10.0.1.0/24", lp2, vhC2, vhC1) },
+			func() (*bgp.Advertisement, vhReq) { return mk("fd00::/64", lp2, vhLarge) })
+		add(base("fc00::2", 64601), func() (*bgp.Advertisement, vhReq) { return mk("10.0.1.0/24", 0) })
+	case 1:
+		p := base("192.168.1.3", 64602)
+		p.VRFName = "red"
+		p.Password = "pw"
+		p.EBGPMultiHop = true
+		add(p, func() (*bgp.Advertisement, vhReq) { return mk("10.0.0.0/24", lp, vhLarge, vhC2) },
+			func() (*bgp.Advertisement, vhReq) { return mk("10.0.0.0/24", lp, vhC1) })
+		add(base("192.168.1.1", 64600))
+	default:
+		add(base("fc00::2", 64512), func() (*bgp.Advertisement, vhReq) { return mk("fd00:0:0:1::/64", lp2, vhC1) },
+			func() (*bgp.Advertisement, vhReq) { return mk("fd00::/64", lp, vhC1, vhC2) })
+		add(base("192.168.1.1", 64600), func() (*bgp.Advertisement, vhReq) { return mk("fd00::/64", 0) })
+	}
+	cfg, err := vhManager(sess, vr.Bool()).createConfig()
+	vr.Assert(vhAll(err == nil, cfg != nil), "createConfig failed")
+	text, err := templateConfig(cfg)
+	vr.Assert(err == nil, "templateConfig failed")
+	vr.Observe("frr.conf", text)
+	vhCheckText(vhParseFRR(text), sess)
+	vr.Reach("frr text sample checked")
 }
